@@ -34,6 +34,8 @@ type Config struct {
 	// RichArgs: printf arguments and tag values of application types
 	// (redact.SafeFormatter with an unsafe part, fmt.Stringer).
 	RichArgs bool
+	// ExtraArgs: an error argument may be passed without a verb for it.
+	ExtraArgs bool
 	// Alias: a multi-cause node may hold the same object in two branches.
 	Alias bool
 	// Verbs: printf-style constructors use other verbs than the default
@@ -369,6 +371,10 @@ func (g *Gen) fill(k Kind, depth int, hidden bool) *Node {
 			}
 			n.A = append(n.A, a)
 		}
+	}
+	// the last error argument may lack a verb in the format
+	if g.Cfg.ExtraArgs && len(n.A) > 0 && n.A[len(n.A)-1].Kind == ArgErr && g.T.Bool(1, 3) {
+		n.A[len(n.A)-1].NoVerb = true
 	}
 	// two error arguments that are occurrences of the same failure (same
 	// constructors and texts, different annotations)
